@@ -102,6 +102,14 @@ def validateEthereumAddress (checksumOk : List Char → Bool) (a : List Char) : 
   else if !checksumOk a then .error .checksumMismatch
   else .ok ()
 
+/-- `fxtypes.ParseAddress`: a bech32 string of any prefix first (`bech32.DecodeAndConvert`, not modelled: `bech32Ok`), else an
+EIP-55 hex address; the result says whether the EVM form was used; an error when neither parses.  Total. -/
+def parseAddress (bech32Ok checksumOk : List Char → Bool) (a : List Char) : Except AddrErr Bool :=
+  if bech32Ok a then .ok false
+  else match validateEthereumAddress checksumOk a with
+    | .ok () => .ok true
+    | .error e => .error e
+
 /-- `^0x[0-9a-fA-F]{40}$` -/
 def ethFormat (a : List Char) : Prop := a.length = 42 ∧ a.take 2 = ['0', 'x'] ∧ (a.drop 2).all isHexChar = true
 
